@@ -797,6 +797,16 @@ impl UPt {
         let (nx, ny) = (one.sub(&u2), u.mul_i(2));
         UPt { nx: if flip { nx.neg() } else { nx }, ny: if flip { ny.neg() } else { ny }, d: one.add(&u2) }
     }
+    pub fn of_dy(u: &Dy, flip: bool) -> UPt {
+        let u2 = u.sq();
+        let one = Dy::int(1);
+        let (nx, ny) = (one.sub(&u2), u.mul_i(2));
+        UPt { nx: if flip { nx.neg() } else { nx }, ny: if flip { ny.neg() } else { ny }, d: one.add(&u2) }
+    }
+    /// sign of the cross product with another unit point (denominators are positive)
+    pub fn cross_sign(&self, o: &UPt) -> i32 {
+        self.nx.mul(&o.ny).sub(&self.ny.mul(&o.nx)).sign()
+    }
     pub fn same(&self, o: &UPt) -> bool {
         self.nx.mul(&o.d).eq(&o.nx.mul(&self.d)) && self.ny.mul(&o.d).eq(&o.ny.mul(&self.d))
     }
@@ -836,15 +846,39 @@ pub struct ArcVerdict {
     pub structure: bool,
     pub vtx: bool,
     pub k_idx: usize,
+    pub viol: Option<usize>,
+}
+
+/// `inCone p0 p1 q`
+fn in_cone(p0: &UPt, p1: &UPt, q: &UPt) -> bool {
+    let d = p0.cross_sign(p1);
+    (d > 0 && p0.cross_sign(q) >= 0 && q.cross_sign(p1) >= 0) || (d < 0 && p0.cross_sign(q) <= 0 && q.cross_sign(p1) <= 0)
+}
+
+impl FrameX {
+    /// `farFrom (A(q)) r2 segs`, everything scaled by the common denominator
+    pub fn far_from_map(&self, q: &UPt, r2: &Dy, l: &[ArcSegX]) -> bool {
+        let dd = self.rot.d.mul(&q.d);
+        let (x, y) = (self.rx.mul(&q.nx), self.ry.mul(&q.ny));
+        let p = Pt { x: self.center.x.mul(&dd).add(&self.rot.nx.mul(&x).sub(&self.rot.ny.mul(&y))), y: self.center.y.mul(&dd).add(&self.rot.ny.mul(&x).add(&self.rot.nx.mul(&y))) };
+        let r2s = r2.mul(&dd.sq());
+        l.iter().all(|s| far_seg(&p, &r2s, &s.sg.a.smul(&dd), &s.sg.b.smul(&dd)))
+    }
 }
 
 impl ArcVerdict {
     pub fn string(&self) -> String {
-        format!("s{}:v{}:k{}", self.structure as u8, self.vtx as u8, self.k_idx)
+        let x = match self.viol {
+            None => "x-".to_string(),
+            Some(i) => format!("x{}", i),
+        };
+        format!("s{}:v{}:k{}:{}", self.structure as u8, self.vtx as u8, self.k_idx, x)
     }
     pub fn bucket(&self) -> String {
         if !self.structure {
             "structure".to_string()
+        } else if self.viol.is_some() {
+            "violation".to_string()
         } else if !self.vtx {
             "vertex-eps".to_string()
         } else if self.k_idx < K_BUCKETS.len() {
@@ -855,7 +889,7 @@ impl ArcVerdict {
     }
 }
 
-pub fn verdict_arc(f: &FrameX, r: &Dy, tol: &Dy, eps: f64, p0: &Pt, pe: &Pt, l: &[ArcSegX]) -> ArcVerdict {
+pub fn verdict_arc(f: &FrameX, r: &Dy, tol: &Dy, eps: f64, p0: &Pt, pe: &Pt, l: &[ArcSegX], tans: &[(f64, bool, f64, bool)]) -> ArcVerdict {
     let segs: Vec<SegX> = l.iter().map(|x| x.sg.clone()).collect();
     let r2 = r.sq();
     let mut structure = r.sign() > 0 && f.rx.sq().le(&r2) && f.ry.sq().le(&r2) && chain_ok(p0, &Dy::zero(), pe, &Dy::int(1), &segs);
@@ -889,5 +923,39 @@ pub fn verdict_arc(f: &FrameX, r: &Dy, tol: &Dy, eps: f64, p0: &Pt, pe: &Pt, l: 
             break;
         }
     }
-    ArcVerdict { structure, vtx, k_idx }
+    // violation certificate: first 4 chords failing the test at k = 1 (kt = tol + eps)
+    let mut viol = None;
+    if k_idx != 0 && structure {
+        let e = Dy::from_f64(eps);
+        let nt = tol.add(&e);
+        let fails = |ln: &Dy, ld: &Dy| -> bool {
+            if nt.le(r) {
+                let rhs = nt.mul(&r.mul_i(2).sub(&nt)).mul_i(4);
+                rhs.mul(ld).lt(&ln.mul(&r.sq()))
+            } else {
+                ld.mul_i(4).lt(ln)
+            }
+        };
+        let r2v = tol.add(&e.mul_i(2)).sq();
+        let mut tried = 0;
+        for (i, (ln, ld)) in ls.iter().enumerate() {
+            if !fails(ln, ld) {
+                continue;
+            }
+            tried += 1;
+            if tried > 4 {
+                break;
+            }
+            let (ua, fa, ub, fbb) = tans[i];
+            if fa != fbb {
+                continue;
+            }
+            let q = UPt::of_dy(&Dy::from_f64(ua).add(&Dy::from_f64(ub)).shl(-1), fa);
+            if in_cone(&l[i].pa, &l[i].pb, &q) && f.far_from_map(&q, &r2v, l) {
+                viol = Some(i);
+                break;
+            }
+        }
+    }
+    ArcVerdict { structure, vtx, k_idx, viol }
 }
